@@ -465,3 +465,8 @@ def _witness_delta_ulp(ctx):
 
 
 WITNESSES = {SIG_FLAT: _witness_flat, SIG_DELTA_ULP: _witness_delta_ulp}
+
+
+# translator tie: the arithmetic of total()/remaining() is re-read from /repo's AST on every run, translated to Lean
+# terms over ℝ and proved equal to what the model computes (DPL/Generated/AccountantFormulas.lean; shared with C04)
+from .c04 import generate  # noqa: E402,F401
